@@ -295,6 +295,10 @@ def run_gram(torch, gpytorch, c, cache=None):
     rec("gram", psd_report(torch, Kd, "Gram matrix K(x,x) of %d points" % x.shape[0]), sample=True)
     # the joint over [x1; x2] assembled from separately requested blocks (what a prediction above max_eager_kernel_size does): symmetric PSD too
     u = max(1, x.shape[0] // 6)
+    # K(x1,x2) and K(x2,x1) are separate floating-point computations: the library's distances go through the quadratic expansion
+    # |a|^2 + |b|^2 - 2ab of the SCALED points, so a distance near 0 comes out as sqrt(eps) * |x / lengthscale| (1e-8 at unit scale, 1e-5 for
+    # lengthscale 1e-3) and a kernel with a kink at 0 (Matern-1/2, Wendland q = 0) passes that on to the entry
+    allow = max(1e-7, 8 * 1.5e-8 * float(x.abs().max()) / min(ls, 1.0))
     was_training = kern.training
     kern.eval()                  # cross-covariance blocks are requested by predictions (InducingPointKernel refuses x1 != x2 in training mode)
     for (a, b) in c.get("splits", []):
@@ -307,7 +311,7 @@ def run_gram(torch, gpytorch, c, cache=None):
             rec(what + "-raises", J, sig="C07/%s/%s/%s/raises" % (what, name, geom))
             continue
         rec(what, psd_report(torch, J, "joint covariance of %d + %d points assembled from the blocks K(x1,x1), K(x1,x2), K(x2,x1), K(x2,x2)" % (x1.shape[0], x2.shape[0]),
-                             stol=1e-7))      # K(x1,x2) and K(x2,x1) are separate floating-point computations: a distance of 0 comes out as sqrt(rounding) ~ 1e-8
+                             stol=allow, tol=allow))
     kern.train(was_training)     # (a mode change drops the evaluation-mode caches)
     if fam == "pwpoly" and geom == "dense" and c.get("phi"):
         # PD certificate: with j = floor(d/2) + q + 1 the documented function is positive definite in R^d; the kernel must BE
